@@ -23,64 +23,74 @@ type rejection struct {
 	file  string
 	name  string
 	cells map[string]string // overrides on a copy of a valid row
+	times int               // > 1: the rejected row is inserted that many times in a row
 }
 
 var rejections = []rejection{
-	{"agency.txt", "blank-agency_name", map[string]string{"agency_name": ""}},
-	{"agency.txt", "blank-agency_url", map[string]string{"agency_url": ""}},
-	{"agency.txt", "blank-agency_timezone", map[string]string{"agency_timezone": ""}},
-	{"routes.txt", "blank-route_id", map[string]string{"route_id": ""}},
-	{"routes.txt", "blank-route_type", map[string]string{"route_type": ""}},
-	{"routes.txt", "unknown-agency_id", map[string]string{"agency_id": "NOSUCH"}},
-	{"routes.txt", "blank-agency_id-with-several-agencies", map[string]string{"agency_id": ""}},
-	{"stops.txt", "blank-stop_id", map[string]string{"stop_id": "", "parent_station": ""}},
-	{"stops.txt", "blank-stop_id-with-parent", map[string]string{"stop_id": "", "parent_station": "S1"}},
-	{"stops.txt", "blank-stop_id-with-parent-S2", map[string]string{"stop_id": "", "parent_station": "S2"}},
-	{"transfers.txt", "blank-from_stop_id", map[string]string{"from_stop_id": ""}},
-	{"transfers.txt", "blank-to_stop_id", map[string]string{"to_stop_id": ""}},
-	{"transfers.txt", "unknown-from_stop_id", map[string]string{"from_stop_id": "NOSUCH"}},
-	{"transfers.txt", "unknown-to_stop_id", map[string]string{"to_stop_id": "NOSUCH"}},
-	{"calendar.txt", "blank-service_id", map[string]string{"service_id": ""}},
-	{"calendar.txt", "bad-start_date", map[string]string{"start_date": "2024-01-01"}},
-	{"calendar.txt", "blank-start_date", map[string]string{"start_date": ""}},
-	{"calendar.txt", "bad-end_date", map[string]string{"end_date": "20241301"}},
-	{"calendar.txt", "blank-monday", map[string]string{"monday": ""}},
-	{"calendar.txt", "blank-sunday", map[string]string{"sunday": ""}},
-	{"calendar_dates.txt", "blank-service_id", map[string]string{"service_id": ""}},
-	{"calendar_dates.txt", "bad-date", map[string]string{"date": "yesterday"}},
-	{"calendar_dates.txt", "blank-date", map[string]string{"date": ""}},
-	{"calendar_dates.txt", "blank-exception_type", map[string]string{"exception_type": ""}},
-	{"shapes.txt", "blank-shape_id", map[string]string{"shape_id": ""}},
-	{"shapes.txt", "bad-shape_pt_lat", map[string]string{"shape_pt_lat": "north"}},
-	{"shapes.txt", "blank-shape_pt_lat", map[string]string{"shape_pt_lat": ""}},
-	{"shapes.txt", "bad-shape_pt_lon", map[string]string{"shape_pt_lon": "1,5"}},
-	{"shapes.txt", "bad-shape_pt_sequence", map[string]string{"shape_pt_sequence": "first"}},
-	{"shapes.txt", "blank-shape_pt_sequence", map[string]string{"shape_pt_sequence": ""}},
-	{"shapes.txt", "bad-shape_pt_lat-of-a-new-shape", map[string]string{"shape_id": "ZZNEWSHAPE", "shape_pt_lat": "north"}},
-	{"shapes.txt", "bad-shape_pt_sequence-of-a-new-shape", map[string]string{"shape_id": "ZZNEWSHAPE", "shape_pt_sequence": "1.5"}},
-	{"shapes.txt", "blank-shape_pt_lon-of-a-new-shape", map[string]string{"shape_id": "ZZNEWSHAPE", "shape_pt_lon": ""}},
-	{"calendar_dates.txt", "bad-date-of-a-new-service", map[string]string{"service_id": "ZZNEWSERVICE", "date": "20241345"}},
-	{"calendar_dates.txt", "blank-exception_type-of-a-new-service", map[string]string{"service_id": "ZZNEWSERVICE", "exception_type": ""}},
-	{"calendar.txt", "bad-end_date-of-a-new-service", map[string]string{"service_id": "ZZNEWSERVICE", "end_date": "2024"}},
-	{"trips.txt", "blank-route_id", map[string]string{"route_id": ""}},
-	{"trips.txt", "blank-service_id", map[string]string{"service_id": ""}},
-	{"trips.txt", "blank-trip_id", map[string]string{"trip_id": ""}},
-	{"trips.txt", "unknown-route_id", map[string]string{"route_id": "NOSUCH"}},
-	{"trips.txt", "unknown-service_id", map[string]string{"service_id": "NOSUCH"}},
-	{"frequencies.txt", "blank-trip_id", map[string]string{"trip_id": ""}},
-	{"frequencies.txt", "unknown-trip_id", map[string]string{"trip_id": "NOSUCH"}},
-	{"frequencies.txt", "bad-start_time", map[string]string{"start_time": "noon"}},
-	{"frequencies.txt", "blank-end_time", map[string]string{"end_time": ""}},
-	{"frequencies.txt", "bad-end_time", map[string]string{"end_time": "12h30"}},
-	{"frequencies.txt", "bad-headway_secs", map[string]string{"headway_secs": "ten"}},
-	{"frequencies.txt", "blank-headway_secs", map[string]string{"headway_secs": ""}},
-	{"stop_times.txt", "blank-trip_id", map[string]string{"trip_id": ""}},
-	{"stop_times.txt", "unknown-trip_id", map[string]string{"trip_id": "NOSUCH"}},
-	{"stop_times.txt", "blank-stop_id", map[string]string{"stop_id": ""}},
-	{"stop_times.txt", "unknown-stop_id", map[string]string{"stop_id": "NOSUCH"}},
-	{"stop_times.txt", "bad-stop_sequence", map[string]string{"stop_sequence": "x1"}},
-	{"stop_times.txt", "blank-stop_sequence", map[string]string{"stop_sequence": ""}},
-	{"stop_times.txt", "no-parseable-time", map[string]string{"arrival_time": "soon", "departure_time": ""}},
+	{"agency.txt", "blank-agency_name", map[string]string{"agency_name": ""}, 1},
+	{"agency.txt", "blank-agency_url", map[string]string{"agency_url": ""}, 1},
+	{"agency.txt", "blank-agency_timezone", map[string]string{"agency_timezone": ""}, 1},
+	{"routes.txt", "blank-route_id", map[string]string{"route_id": ""}, 1},
+	{"routes.txt", "blank-route_type", map[string]string{"route_type": ""}, 1},
+	{"routes.txt", "unknown-agency_id", map[string]string{"agency_id": "NOSUCH"}, 1},
+	{"routes.txt", "blank-agency_id-with-several-agencies", map[string]string{"agency_id": ""}, 1},
+	{"stops.txt", "blank-stop_id", map[string]string{"stop_id": "", "parent_station": ""}, 1},
+	{"stops.txt", "blank-stop_id-with-parent", map[string]string{"stop_id": "", "parent_station": "S1"}, 1},
+	{"stops.txt", "blank-stop_id-with-parent-S2", map[string]string{"stop_id": "", "parent_station": "S2"}, 1},
+	{"transfers.txt", "blank-from_stop_id", map[string]string{"from_stop_id": ""}, 1},
+	{"transfers.txt", "blank-to_stop_id", map[string]string{"to_stop_id": ""}, 1},
+	{"transfers.txt", "unknown-from_stop_id", map[string]string{"from_stop_id": "NOSUCH"}, 1},
+	{"transfers.txt", "unknown-to_stop_id", map[string]string{"to_stop_id": "NOSUCH"}, 1},
+	{"calendar.txt", "blank-service_id", map[string]string{"service_id": ""}, 1},
+	{"calendar.txt", "bad-start_date", map[string]string{"start_date": "2024-01-01"}, 1},
+	{"calendar.txt", "blank-start_date", map[string]string{"start_date": ""}, 1},
+	{"calendar.txt", "bad-end_date", map[string]string{"end_date": "20241301"}, 1},
+	{"calendar.txt", "blank-monday", map[string]string{"monday": ""}, 1},
+	{"calendar.txt", "blank-sunday", map[string]string{"sunday": ""}, 1},
+	{"calendar_dates.txt", "blank-service_id", map[string]string{"service_id": ""}, 1},
+	{"calendar_dates.txt", "bad-date", map[string]string{"date": "yesterday"}, 1},
+	{"calendar_dates.txt", "blank-date", map[string]string{"date": ""}, 1},
+	{"calendar_dates.txt", "blank-exception_type", map[string]string{"exception_type": ""}, 1},
+	{"shapes.txt", "blank-shape_id", map[string]string{"shape_id": ""}, 1},
+	{"shapes.txt", "bad-shape_pt_lat", map[string]string{"shape_pt_lat": "north"}, 1},
+	{"shapes.txt", "blank-shape_pt_lat", map[string]string{"shape_pt_lat": ""}, 1},
+	{"shapes.txt", "bad-shape_pt_lon", map[string]string{"shape_pt_lon": "1,5"}, 1},
+	{"shapes.txt", "bad-shape_pt_sequence", map[string]string{"shape_pt_sequence": "first"}, 1},
+	{"shapes.txt", "blank-shape_pt_sequence", map[string]string{"shape_pt_sequence": ""}, 1},
+	{"shapes.txt", "bad-shape_pt_lat-of-a-new-shape", map[string]string{"shape_id": "ZZNEWSHAPE", "shape_pt_lat": "north"}, 1},
+	{"shapes.txt", "bad-shape_pt_sequence-of-a-new-shape", map[string]string{"shape_id": "ZZNEWSHAPE", "shape_pt_sequence": "1.5"}, 1},
+	{"shapes.txt", "blank-shape_pt_lon-of-a-new-shape", map[string]string{"shape_id": "ZZNEWSHAPE", "shape_pt_lon": ""}, 1},
+	{"calendar_dates.txt", "bad-date-of-a-new-service", map[string]string{"service_id": "ZZNEWSERVICE", "date": "20241345"}, 1},
+	{"calendar_dates.txt", "blank-exception_type-of-a-new-service", map[string]string{"service_id": "ZZNEWSERVICE", "exception_type": ""}, 1},
+	{"calendar.txt", "bad-end_date-of-a-new-service", map[string]string{"service_id": "ZZNEWSERVICE", "end_date": "2024"}, 1},
+	{"stop_times.txt", "unknown-trip_id-twice-in-a-row", map[string]string{"trip_id": "NOSUCH"}, 2},
+	{"stop_times.txt", "unknown-trip_id-three-times-in-a-row", map[string]string{"trip_id": "NOSUCH"}, 3},
+	{"stop_times.txt", "unknown-stop_id-twice-in-a-row", map[string]string{"stop_id": "NOSUCH"}, 2},
+	{"stop_times.txt", "blank-trip_id-twice-in-a-row", map[string]string{"trip_id": ""}, 2},
+	{"frequencies.txt", "unknown-trip_id-twice-in-a-row", map[string]string{"trip_id": "NOSUCH"}, 2},
+	{"shapes.txt", "bad-shape_pt_lat-twice-in-a-row", map[string]string{"shape_pt_lat": "north"}, 2},
+	{"calendar_dates.txt", "bad-date-twice-in-a-row", map[string]string{"date": "yesterday"}, 2},
+	{"trips.txt", "unknown-route_id-twice-in-a-row", map[string]string{"route_id": "NOSUCH"}, 2},
+	{"agency.txt", "blank-agency_name-twice-in-a-row", map[string]string{"agency_name": ""}, 2},
+	{"trips.txt", "blank-route_id", map[string]string{"route_id": ""}, 1},
+	{"trips.txt", "blank-service_id", map[string]string{"service_id": ""}, 1},
+	{"trips.txt", "blank-trip_id", map[string]string{"trip_id": ""}, 1},
+	{"trips.txt", "unknown-route_id", map[string]string{"route_id": "NOSUCH"}, 1},
+	{"trips.txt", "unknown-service_id", map[string]string{"service_id": "NOSUCH"}, 1},
+	{"frequencies.txt", "blank-trip_id", map[string]string{"trip_id": ""}, 1},
+	{"frequencies.txt", "unknown-trip_id", map[string]string{"trip_id": "NOSUCH"}, 1},
+	{"frequencies.txt", "bad-start_time", map[string]string{"start_time": "noon"}, 1},
+	{"frequencies.txt", "blank-end_time", map[string]string{"end_time": ""}, 1},
+	{"frequencies.txt", "bad-end_time", map[string]string{"end_time": "12h30"}, 1},
+	{"frequencies.txt", "bad-headway_secs", map[string]string{"headway_secs": "ten"}, 1},
+	{"frequencies.txt", "blank-headway_secs", map[string]string{"headway_secs": ""}, 1},
+	{"stop_times.txt", "blank-trip_id", map[string]string{"trip_id": ""}, 1},
+	{"stop_times.txt", "unknown-trip_id", map[string]string{"trip_id": "NOSUCH"}, 1},
+	{"stop_times.txt", "blank-stop_id", map[string]string{"stop_id": ""}, 1},
+	{"stop_times.txt", "unknown-stop_id", map[string]string{"stop_id": "NOSUCH"}, 1},
+	{"stop_times.txt", "bad-stop_sequence", map[string]string{"stop_sequence": "x1"}, 1},
+	{"stop_times.txt", "blank-stop_sequence", map[string]string{"stop_sequence": ""}, 1},
+	{"stop_times.txt", "no-parseable-time", map[string]string{"arrival_time": "soon", "departure_time": ""}, 1},
 }
 
 var idColumnOf = map[string]string{"agency.txt": "agency_id", "routes.txt": "route_id", "stops.txt": "stop_id", "calendar.txt": "service_id", "trips.txt": "trip_id"}
@@ -96,6 +106,9 @@ type insertion struct {
 func spliceRejected(m *feedModel, rj rejection, pos int, tag string) []string {
 	t := m.t(rj.file)
 	src := t.Rows[pos%len(t.Rows)]
+	for i := 0; i < len(t.Rows) && strings.HasPrefix(strings.Join(src, "|"), "ZZ"); i++ {
+		src = t.Rows[(pos+i)%len(t.Rows)] // never copy an already spliced row
+	}
 	row := append([]string{}, src...)
 	for i, sp := range staticSpecs[rj.file] {
 		if sp.Kind == kText || sp.Kind == kTextReq {
@@ -133,8 +146,14 @@ func c09Harness(nInsert int) Harness {
 			if pos > len(t.Rows) {
 				pos = len(t.Rows)
 			}
-			row := spliceRejected(m, rj, pos, fmt.Sprint(k+1))
-			ins = append(ins, insertion{rj, pos, row})
+			times := rj.times
+			if times < 1 {
+				times = 1
+			}
+			for rep := 0; rep < times; rep++ {
+				row := spliceRejected(m, rj, pos+rep, fmt.Sprintf("%d.%d", k+1, rep))
+				ins = append(ins, insertion{rj, pos + rep, row})
+			}
 			desc = append(desc, fmt.Sprintf("%s:%s@%d", rj.file, rj.name, pos))
 		}
 		bb := renderFeed(base, presentation{})
